@@ -32,6 +32,7 @@ from .errors import (
     JSTypeError,
     JSReferenceError,
     JSRangeError,
+    JSSyntaxError,
     MemoryLimitError,
     TimeLimitError,
 )
@@ -298,6 +299,9 @@ class VM:
             except JSRangeError as e:
                 # Convert Python JSRangeError to JavaScript RangeError
                 self._handle_python_exception("RangeError", str(e))
+            except JSSyntaxError as e:
+                # Raised by built-ins that parse text (JSON.parse, RegExp)
+                self._handle_python_exception("SyntaxError", e.message)
             except NativeUnwind:
                 # A handler of one of our frames took over; carry on from there
                 pass
@@ -2497,7 +2501,7 @@ class VM:
                 # Continue here only if the handler belongs to one of our frames
                 if len(self.call_stack) <= call_stack_len:
                     raise
-            except (JSTypeError, JSReferenceError, JSRangeError) as e:
+            except (JSTypeError, JSReferenceError, JSRangeError, JSSyntaxError) as e:
                 # A try block inside the nested code catches it here; otherwise the
                 # host exception abandons the built-ins up to the handler's loop
                 if not (
@@ -2505,7 +2509,7 @@ class VM:
                     and self.exception_handlers[-1][0] >= call_stack_len
                 ):
                     raise
-                self._handle_python_exception(e.name, str(e))
+                self._handle_python_exception(e.name, e.message)
 
         # Get result from stack
         if len(self.stack) > stack_len:
